@@ -242,6 +242,7 @@ func GetHashNode(items map[Node]Node, line int) *HashNode {
 	node.ExpressionNode.exprType = ExprHash
 	node.ExpressionNode.line = line
 	node.items = items
+	node.order = nil
 	return node
 }
 
@@ -251,6 +252,7 @@ func ReleaseHashNode(node *HashNode) {
 		return
 	}
 	node.items = nil
+	node.order = nil
 	HashNodePool.Put(node)
 }
 
